@@ -205,6 +205,16 @@ def all_events(chart) -> list:
     return evs
 
 
+def event_hashes(chart) -> list:
+    out = []
+    for ev in all_events(chart)[:80]:
+        try:
+            out.append((type(ev).__name__, hash(ev)))
+        except TypeError:
+            out.append((type(ev).__name__, "unhashable"))
+    return out
+
+
 def state(chart, twin):
     # canonical observation + equality with the twin + the ORDER-SENSITIVE public views (iteration order of the
     # instrument map and of each difficulty map, str() and repr() of the chart)
@@ -355,7 +365,11 @@ def run_case(rec, case: dict) -> None:
     try:
         # equality and stored fields BEFORE anything derived is read; then the first full observation (which reads every
         # derived attribute) is itself judged as a read-only operation
-        raw_pre = observe.raw(chart)  # stored fields, read before ANY comparison
+        raw_pre = observe.raw(chart)
+        # hashes of a sample of events, taken BEFORE anything derived has been read from them (a hash that takes in lazily filled
+        # caches changes when the cache fills: the event vanishes from the set / dict it was put in)
+        hashes_pre = event_hashes(chart)
+        hashes_twin = event_hashes(twin)  # stored fields, read before ANY comparison
         eq0 = (bool(chart == twin), bool(twin == chart))
         if not (eq0[0] and eq0[1]):
             rec.diag("twin differs from chart before any operation (C17's business); case skipped")
@@ -373,6 +387,18 @@ def run_case(rec, case: dict) -> None:
                           {"text": text, "ops": [], "opseed": seed_key, "want": case.get("want")}, "state-changed-by:comparison")
             return
         before = state(chart, twin)
+        rec.ev()
+        hashes_now = event_hashes(chart)
+        if hashes_now != hashes_pre:
+            k = next(i for i, (a, b) in enumerate(zip(hashes_pre, hashes_now)) if a != b)
+            rec.violation("mutation", f"hash() of event #{k} ({hashes_pre[k][0]}) changed merely because the chart was observed (derived attributes read, "
+                          "rendered, compared): an event put in a set or used as a dict key is lost", {"text": text, "op": "first_observation"}, "hash-changes-on-read")
+            return
+        if hashes_pre != hashes_twin:
+            k = next(i for i, (a, b) in enumerate(zip(hashes_pre, hashes_twin)) if a != b)
+            rec.violation("mutation", f"event #{k} ({hashes_pre[k][0]}) of two identical parses compares equal but hashes differently before any use",
+                          {"text": text, "op": "first_observation"}, "hash-differs-between-twins")
+            return
         rec.ev()
         rec.cls("op:first_observation_reads_derived_attributes")
         raw1 = observe.raw(chart)
